@@ -251,5 +251,76 @@ def _has_self_stores(f):
   return False
 
 
+NP_INPLACE_METHODS = {'sort', 'fill', 'resize', 'put', 'itemset', 'partition', 'setfield', 'byteswap', 'append', 'extend', 'pop', 'clear', 'update', 'insert', 'remove', 'reverse'}
+FRESH_FUNCS = {'np.array', 'numpy.array', 'np.copy', 'copy.copy', 'copy.deepcopy', 'list', 'tuple', 'np.cumsum', 'np.abs', 'abs', 'np.sqrt'}
+
+
+def r4_reads_do_not_mutate(repo, rep, class_q):
+  """Getters and other non-writer methods do not modify, in place, objects held in (or reachable from) instance fields:
+  reading a derived quantity must not change what another read returns."""
+  from mmsa.types import FuncCtx
+  cls = repo.cls(class_q)
+  n_sites = 0
+  for f in cls.all_functions():
+    if f.kind == 'setter' or f.name == '__init__':
+      continue
+    ctx = FuncCtx.of(f)
+    g, rd = ctx.g, ctx.rd
+    sn = f.params[0] if f.params else 'self'
+
+    def is_state_alias(e, node, depth=8):
+      if depth <= 0 or e is None:
+        return False
+      if isinstance(e, ast.Attribute):
+        if isinstance(e.value, ast.Name) and e.value.id == sn:
+          return True
+        return is_state_alias(e.value, node, depth - 1)
+      if isinstance(e, ast.Subscript):
+        return is_state_alias(e.value, node, depth - 1)
+      if isinstance(e, ast.Starred):
+        return is_state_alias(e.value, node, depth - 1)
+      if isinstance(e, ast.Call):
+        fn = norm(e.func)
+        if fn in ('np.asarray', 'numpy.asarray', 'np.ravel', 'np.reshape', 'np.squeeze') and e.args:
+          return is_state_alias(e.args[0], node, depth - 1)
+        if isinstance(e.func, ast.Attribute) and e.func.attr in ('reshape', 'ravel', 'view', 'squeeze', 'T', 'transpose'):
+          return is_state_alias(e.func.value, node, depth - 1)
+        return False
+      if isinstance(e, ast.Name):
+        ds = rd.defs_at(node, e.id)
+        for d in ds:
+          if d.how in ('assign', 'unpack') and d.value is not None and is_state_alias(d.value, d.node, depth - 1):
+            return True
+        return False
+      return False
+
+    for node in g.nodes:
+      for e in ctx.node_exprs(node):
+        sites = []
+        for sub in walk_no_nested(e):
+          if isinstance(sub, ast.AugAssign):
+            sites.append((sub.target if not isinstance(sub.target, ast.Name) else sub.target, norm(sub), sub))
+          elif isinstance(sub, ast.Assign):
+            for t in sub.targets:
+              if isinstance(t, ast.Subscript):
+                sites.append((t.value, norm(sub), sub))
+          elif isinstance(sub, ast.Call):
+            o = [k.value for k in sub.keywords if k.arg == 'out']
+            for x in o:
+              sites.append((x, norm(sub), sub))
+            if isinstance(sub.func, ast.Attribute) and sub.func.attr in NP_INPLACE_METHODS:
+              sites.append((sub.func.value, norm(sub), sub))
+        for recv, txt, sub in sites:
+          if isinstance(recv, ast.Attribute) and isinstance(recv.value, ast.Name) and recv.value.id == sn and isinstance(sub, ast.Assign):
+            continue      # plain field store (handled by the cache rules)
+          n_sites += 1
+          alias = is_state_alias(recv, node)
+          rep.check(not alias, 'R4/read-does-not-mutate', '%s: in-place operation %s does not touch cached state' % (f.name, txt[:40]), f.qualname, txt[:120],
+                    '%s modifies `%s` in place (%s), and that object is held in (or is a view of) the instance\'s cached state: reading this quantity changes what later reads of other quantities return'
+                    % (f.qualname, norm(recv)[:40], txt[:80]), f.loc(sub))
+  rep.extra['in_place_sites_examined'] = n_sites
+
+
 def run(repo, rep, tier):
   analyse_class(repo, rep, CLASS, floors={'memo': 7, 'writers': 2, 'pairs': 14, 'cached': 2})
+  r4_reads_do_not_mutate(repo, rep, CLASS)
